@@ -33,7 +33,7 @@ def frame_records(tier, seed, variant="plain"):
             for f, dv in (("encThrew", False), ("sig", False), ("hsField", -1), ("hvField", -1), ("osField", -1),
                           ("otField", -1), ("emitted", -1), ("padZero", False), ("shapeKept", False), ("consumed", -1),
                           ("decGood", False), ("decThrew", False), ("sameShape", False), ("sameFields", False),
-                          ("reencSame", False), ("decCls", "none"), ("widthTrunc", False)):
+                          ("reencSame", False), ("decCls", "none"), ("widthTrunc", False), ("ufSame", False)):
                 r.setdefault(f, dv)
             recs.append(r)
     return recs, None
@@ -57,10 +57,9 @@ def validate(rep, recs, tag, which, module="Framing"):
     if res["distinct"] != len(recs):
         raise vlib.ToolError("%s: TLC consumed %d of %d records" % (tag, res["distinct"], len(recs)))
     names = []
-    with open(res["out"], errors="replace") as f:
-        for ln in f:
-            if ln.startswith('<<"REJECTED"'):
-                names.append(ln.split('"')[3])
+    for ln in res["printed"]:
+        if ln.startswith('<<"REJECTED"'):
+            names.append(ln.split('"')[3])
     return names
 
 
@@ -87,4 +86,6 @@ def frame_kinds(r):
             k.append("reenc")
         if r["decCls"] != r["cls"]:
             k.append("class")
+        if not r["ufSame"]:
+            k.append("stream")
     return k or ["header"]
